@@ -272,7 +272,7 @@ def run(chk: lib.Check):
                     chk.note_case((spec0["name"], "empty-attrs", rnd, d.uuid))
                     base = guard(model, base, f"rendering diagram {d.name!r} of a model in which {touched} elements carry an explicit empty name/workspacePath",
                                  f"render-writes:empty-attributes:{d.name}", {"model": spec0["name"], "diagram": d.uuid, "name": d.name, "round": rnd})
-                for o_ in list(model.search())[: (300 if quick else 3000)]:
+                for o_ in [x_ for x_ in model.search() if isinstance(x_, _obj.ModelElement)][: (300 if quick else 3000)]:
                     try:
                         repr(o_); o_._repr_html_(); o_._short_html_()
                     except Exception as ex:  # noqa: BLE001
